@@ -11,12 +11,19 @@ What is proved here is the *reason* concurrent calls return the single-threaded 
      (`decide` over the table the translator extracts from the current sources),
  T4  the access programs of the kernels (erode, convolve, label, cwatershed, labeled folds) touch only
      the call's arguments and its own arrays, so any family of calls with disjoint outputs is confined
-     and T1 applies to it; the erode / convolve / labeled-fold programs compute the models' values.
+     and T1 applies to it; all five programs compute the models' values in their solo run;
+     the roles of every program stay inside the kernel's arity; a call that raises after any number of
+     kernel steps has written nothing outside its own arrays.
 Real data races inside the compiled C++ and CPython's own guarantees are runtime behaviour and are
 only validated (thread stress), see the evidence file.
 -/
 import Mahotas.Proofs.C12
 import Mahotas.Proofs.C12Kernels
+import Mahotas.Proofs.C12Roles
+import Mahotas.Proofs.C12Exceptions
+import Mahotas.Proofs.C12Label
+import Mahotas.Proofs.C12Cwatershed
+import Mahotas.Proofs.C12Kernels2
 import Mahotas.Generated.Statics
 namespace Mahotas.C12
 open Mahotas
@@ -214,8 +221,8 @@ base offsets, element values, border modes and fold functions:
 compiled thread program is `Step.Confined t` (writes `priv t`, reads `priv t` or `sharedRO`).
 The read set over-approximates where the C++ leaves a loop early (`erode`'s break at the dtype minimum).
 How the programs relate to the kernels' VALUES is a separate matter: see `C12_erode_program_computes_model`,
-`C12_convolve_program_computes_model`, `C12_labeled_fold_program_computes_model` (tied) and
-`C12_label_cwatershed_traces_partial` (sets only). -/
+`C12_convolve_program_computes_model`, `C12_labeled_fold_program_computes_model`,
+`C12_label_program_computes_model`, `C12_cwatershed_program_computes_model` (all five tied). -/
 theorem C12_kernel_confined (k : Kernel) (c : Call) (hne : c.outputs ≠ []) :
     (∀ s ∈ (k.call c).prog, s.Within c) ∧
     (∀ l ∈ writeSet (k.call c).prog, l.arr ∈ c.outputs) ∧
@@ -352,29 +359,423 @@ theorem C12_labeled_fold_program_computes_model (kcs : List KCall) (t : Nat) (f 
       some (solo (compile kcs) t m ((KLoc.mk aRes (j : Int)).toLoc (kcs.map (·.call)))) :=
   fold_solo_value kcs t f start maxlabel vA vL mA mL aA aL aRes aReg hk h1 h2 h3 h4 h5 m hA hL j hj
 
-/-- **C12-T4 (partial: label and cwatershed).** For the access traces of `label` (generated along the run of
-`C03.scanPixel`/`C03.find`/`C03.join`/`C03.compress`/`C03.renumber`: the union-find parents are read and
-written in the call's own `labeled` buffer) and of `cwatershed` (generated along the run of
-`C04.modelInit`/`C04.extractMin`/`C04.modelVisit`: result, `status`, priority queue, `lines`, neighbour
-table), for every input and every footprint with an owned array: the write set lies in the call's owned
-arrays and the read set in its argument and owned arrays.
-MISSING: these two programs are *trace replays* — a write step stores the value the model stored, it does
-not recompute it from the values read — so their solo run is NOT proved to leave `C03.labelModel` /
-`C04.cwatershedModel` in the output locations; the offsets are not proved to lie inside the buffers
-(union-find parents `< N`, `npos < N`: C03/C04/C10 territory), and the roles are not proved to stay within
-`Kernel.arity`. Only the read/write SETS at array granularity are proved. -/
-theorem C12_label_cwatershed_traces_partial (c : Call) (hne : c.outputs ≠ []) :
-    (∀ (md : Mode) (shape : List Nat) (data : List Int) (vBc : C08.View) (bc : Array Int),
-      let p := ((Kernel.label md shape data vBc bc).call c).prog
-      (∀ l ∈ writeSet p, l.arr ∈ c.outputs) ∧ (∀ l ∈ readSet p, l.arr ∈ c.inputs ∨ l.arr ∈ c.outputs)) ∧
-    (∀ (vS vM vBc : C08.View) (surf markers : Img Int) (bc : Array Int),
-      let p := ((Kernel.cwatershed vS vM vBc surf markers bc).call c).prog
-      (∀ l ∈ writeSet p, l.arr ∈ c.outputs) ∧ (∀ l ∈ readSet p, l.arr ∈ c.inputs ∨ l.arr ∈ c.outputs)) := by
-  refine ⟨fun md shape data vBc bc => ?_, fun vS vM vBc surf markers bc => ?_⟩
-  · have h := C12_kernel_confined (Kernel.label md shape data vBc bc) c hne
-    exact ⟨h.2.1, h.2.2.1⟩
-  · have h := C12_kernel_confined (Kernel.cwatershed vS vM vBc surf markers bc) c hne
-    exact ⟨h.2.1, h.2.2.1⟩
+/-- **C12-T4 (tie: the label program computes `C03.labelModel`).** Let call number `t` of ANY family of calls be
+`label` (any border mode, shape, structuring element) on arrays `[aBc]` → `[aL, aF, aReg, aSeen]` (the `labeled` buffer,
+the filter copy, the registers, the `seen` map; `aL` distinct from the other three, registers distinct from `seen`). The
+access program is a REAL step program: the addresses are generated along the run of the union-find model (`find` follows
+the parent pointers, so they are data dependent, as in `labeled_foldl`), but every stored value is computed by the step
+from the values it reads — `data[i] = data[i] ? i : -1`; `find` loads `data[i]`, returns the root through the register
+and stores the register on the way back; `join` stores the register at the first root; the renumbering loop does
+`data[i] = seen[val]` or `data[i] = next; seen[val] = next; ++next`. If the initial memory holds `data` in the `labeled`
+buffer, then after the SOLO run of the compiled program element `j` of that buffer is exactly
+`(C03.labelModel mode shape data bshape bc).1[j]` — the model the driver runs (`c03 kind=label`, proved equal to the
+connected-component specification in C03) — and the `next` register holds the returned count plus one. With
+`C12_concurrent_kernels_independent` the same labels are there after every complete interleaving with any other calls that
+have disjoint outputs. (No well-formedness of the parent forest is assumed: the simulation holds for every input, using
+only that every parent entry is `-1` or an index below `N`, which the program itself maintains.) -/
+theorem C12_label_program_computes_model (kcs : List KCall) (t : Nat) (md : Mode) (shape : List Nat)
+    (data : List Int) (vBc : C08.View) (bc : Array Int) (aBc aL aF aReg aSeen : Nat)
+    (hk : kcs[t]? = some ((Kernel.label md shape data vBc bc).call ⟨[aBc], [aL, aF, aReg, aSeen]⟩))
+    (hLF : aL ≠ aF) (hLR : aL ≠ aReg) (hLS : aL ≠ aSeen) (hRS : aReg ≠ aSeen) (m : Mem)
+    (hM : ∀ j, j < data.length → m ((KLoc.mk aL (j : Int)).toLoc (kcs.map (·.call))) = data.getD j 0) :
+    (∀ j, j < data.length →
+      solo (compile kcs) t m ((KLoc.mk aL (j : Int)).toLoc (kcs.map (·.call))) =
+        (C03.labelModel md shape data vBc.shape bc).1.getD j 0) ∧
+    solo (compile kcs) t m ((KLoc.mk aReg 1).toLoc (kcs.map (·.call))) =
+      (C03.labelModel md shape data vBc.shape bc).2 + 1 :=
+  label_solo_value kcs t md shape data vBc bc aBc aL aF aReg aSeen hk hLF hLR hLS hRS m hM
+
+/-- **C12-T4 (tie: the cwatershed program computes `C04.cwatershedModel`).** Let call number `t` of ANY family of calls
+be `cwatershed` on arrays `[aS, aM, aBc]` (surface, markers, Bc) → `[aRes, aSt, aQ, aLn, aT, aR]` (result, `status`, priority
+queue, `lines`, neighbour table, register) with `res`, `status`, `lines` distinct from each other and from the queue, the
+table and the register, and the markers array distinct from the owned arrays written before it is read (`CDist`). Every
+value the access program stores into `res`, `status`, `lines` is a constant the C++ stores as a constant
+(`status[..] = grey/black`, `lines[..] = true`) or a copy of a value it reads (`res[mpos] = *miter`,
+`rdata[npos] = rdata[next.position]`); the addresses are generated along the run of the model (the order in which the queue
+delivers the pixels is data dependent). If markers and surface have the same shape, `Bc` has their rank, the initial
+memory shows the markers through `vM`'s iterator and holds zeros in the `res` and `lines` buffers (the wrapper's
+`np.zeros`), then after the SOLO run of the compiled program, for every pixel `j`: `res[j]`, `status[j]` (0 white / 1 grey
+/ 2 black) and `lines[j]` (0/1) are exactly those of `C04.cwatershedModel surf markers bshape bc` — the model the driver
+runs (`c04 kind=ws`), proved equal to the specification flooding in C04. That every address generated lies inside the
+buffers (`next.position < N`, `npos < N`) is part of the proof (from `C04.Rel`: `C04.visit_rel`, `C04.rel_pop`,
+`C04.nbCheck_sound`). The surface VALUES are irrelevant for this statement: they only flow into queue cells; the pop
+order is the model's. -/
+theorem C12_cwatershed_program_computes_model (kcs : List KCall) (t : Nat) (vS vM vBc : C08.View)
+    (surf markers : Img Int) (bc : Array Int) (aS aM aBc aRes aSt aQ aLn aT aR : Nat)
+    (hk : kcs[t]? = some ((Kernel.cwatershed vS vM vBc surf markers bc).call
+      ⟨[aS, aM, aBc], [aRes, aSt, aQ, aLn, aT, aR]⟩))
+    (hd : CDist aM aRes aSt aQ aLn aT aR)
+    (hms : markers.shape = surf.shape) (hb : vBc.shape.length = surf.shape.length) (m : Mem)
+    (hres : ∀ j, j < shapeSize surf.shape → m ((KLoc.mk aRes (j : Int)).toLoc (kcs.map (·.call))) = 0)
+    (hln : ∀ j, j < shapeSize surf.shape → m ((KLoc.mk aLn (j : Int)).toLoc (kcs.map (·.call))) = 0)
+    (hmk : ∀ i, i < shapeSize surf.shape →
+      m ((KLoc.mk aM (iterAddr vM i)).toLoc (kcs.map (·.call))) = markers.data.getD i 0)
+    (j : Nat) (hj : j < shapeSize surf.shape) :
+    solo (compile kcs) t m ((KLoc.mk aRes (j : Int)).toLoc (kcs.map (·.call))) =
+      (C04.cwatershedModel surf markers vBc.shape bc).res.getD j 0 ∧
+    solo (compile kcs) t m ((KLoc.mk aSt (j : Int)).toLoc (kcs.map (·.call))) =
+      (((C04.cwatershedModel surf markers vBc.shape bc).status.getD j 0 : Nat) : Int) ∧
+    solo (compile kcs) t m ((KLoc.mk aLn (j : Int)).toLoc (kcs.map (·.call))) =
+      (if (C04.cwatershedModel surf markers vBc.shape bc).lines.getD j false = true then 1 else 0) :=
+  cwatershed_solo_value kcs t vS vM vBc surf markers bc aS aM aBc aRes aSt aQ aLn aT aR hk hd hms hb m hres hln hmk j hj
+
+/-! ## T4, round 3 — well-formed roles, generic calls, exception paths -/
+
+/-- **C12-T4 (roles are well formed: confinement is not an artefact of the fall-back).** `Call.arrOf` resolves a role
+whose index does not exist to the call's first owned array, which makes `mkStep_within` true for ANY role-level
+step. This theorem removes that crutch for the five kernel access programs: for every kernel `k` (any parameters,
+any data) (1) every step `r` of `k.raw` mentions only roles inside `k.arity` (`RStep.rolesOk`: destination index
+`< arity.2`, every source `inp i` with `i < arity.1`, `own i` with `i < arity.2`) — erode, convolve and the labeled
+folds use 2 argument and 2 owned arrays, label 1 and 4, cwatershed 3 and 6; hence (2) for every footprint `c` with
+at least `arity.1` argument arrays and `arity.2` owned arrays the STRICT resolution `mkStep?` (which fails instead of
+falling back) succeeds on every step and returns exactly `mkStep c r`; (3) the array written is `c.outputs[r.dst]`,
+the owned array the step names. So the write set of each kernel is contained in the call's owned arrays because
+every destination IS one of the named owned arrays, and the read set in the named argument / owned arrays. -/
+theorem C12_kernel_roles_wellformed (k : Kernel) :
+    (∀ r ∈ k.raw, r.rolesOk k.arity = true) ∧
+    (∀ c : Call, c.HasArity k.arity → ∀ r ∈ k.raw,
+      mkStep? c r = some (mkStep c r) ∧ c.outputs[r.dst]? = some (mkStep c r).dst.arr) := by
+  refine ⟨kernel_rolesOk k, fun c hc r hr => ⟨?_, ?_⟩⟩
+  · exact mkStep?_of_rolesOk c k.arity hc r (kernel_rolesOk k r hr)
+  · exact mkStep_dst_of_rolesOk c k.arity hc r (kernel_rolesOk k r hr)
+
+/-- **C12-T4 (any role-level programs).** `C12_concurrent_kernels_independent` for an arbitrary family of calls, each
+running an ARBITRARY role-level program (`KCall`: the five kernels, further kernels, truncated programs of calls that
+raise): every call owns at least one array and an array owned by one call is neither owned nor read by another ⇒ for
+every schedule and initial memory (1) every location of an array owned by call `t` holds what `t`'s solo run with the
+same number of turns leaves there, (2) for a complete schedule the result of its complete solo run, (3) arrays nobody
+owns are unchanged. -/
+theorem C12_concurrent_calls_independent (kcs : List KCall)
+    (hne : ∀ kc ∈ kcs, kc.call.outputs ≠ []) (hd : DisjointOutputs (kcs.map (·.call)))
+    (sched : List Nat) (m : Mem) :
+    let calls := kcs.map (·.call)
+    (∀ (t : Nat) (kc : KCall), kcs[t]? = some kc → ∀ l : KLoc, l.arr ∈ kc.call.outputs →
+      (run (compile kcs) sched (init m)).mem (l.toLoc calls) =
+        (soloSteps (compile kcs) t (sched.count t) m).mem (l.toLoc calls) ∧
+      (Complete (compile kcs) sched →
+        (run (compile kcs) sched (init m)).mem (l.toLoc calls) = solo (compile kcs) t m (l.toLoc calls))) ∧
+    (∀ l : KLoc, (∀ kc ∈ kcs, l.arr ∉ kc.call.outputs) →
+      (run (compile kcs) sched (init m)).mem (l.toLoc calls) = m (l.toLoc calls)) := by
+  intro calls
+  have hconf : Confined (compile kcs) := compile_confined kcs hne hd
+  refine ⟨?_, ?_⟩
+  · intro t kc ht l hl
+    have hreg : (l.toLoc calls).region = .priv t :=
+      region_of_output calls hd t kc.call (by simp [calls, ht]) l.arr hl
+    exact ⟨(C12_interleaving_independent _ hconf sched m t).1 _ hreg,
+      fun hs => C12_interleaving_independent_complete _ hconf sched hs m t _ hreg⟩
+  · intro l hl
+    apply C12_shared_unchanged _ hconf
+    left
+    apply region_unowned
+    intro c hc
+    simp only [calls, List.mem_map] at hc
+    obtain ⟨kc, hkc, rfl⟩ := hc
+    exact hl kc hkc
+
+/-- **C12 (exception paths release nothing).** Composition of the lock skeletons (T2) with the confinement of the
+access programs (T4). Take any family `kcs` of native calls in flight (arbitrary role-level programs, every call owns an
+array, disjoint outputs) and let call `t` = `kc` be wrapped in idiom `i` ∈ {(a) RAII release inside
+`SAFE_SWITCH_ON_TYPES_OF`, (b) braced scope with `restore()`, (c) `try { gil_release … } catch (bad_alloc)`} and leave
+its kernel with ANY outcome `o` the idiom can exhibit: a C++ exception after `k` steps ((a), (c)), an in-place error
+after `k` steps ((b)), or normal completion. Then
+(1) *control*: the trace keeps the lock `Discipline`; it is `validate, release`, then exactly as many `kernelStep`s as the
+truncated access program `kc.truncate o` has steps (the first `min k n` steps of the program), then the exit sequence
+(`throw, acquire, PyErr, ret` resp. `acquire, PyErr, ret`) — every kernel step lies between the release and the exit
+sequence, none after the throw;
+(2) *memory, the call alone*: the steps that did run leave every location of every array the call does not own
+unchanged (its arguments included) — whatever `k` is;
+(3) *memory, the other calls*: for every schedule, every location outside the arrays `t` owns holds exactly what it
+holds when call `t` never runs its kernel at all (program `[]`): the other calls' results and the shared inputs cannot
+tell whether, or where, `t` raised;
+(4) the partial result left in `t`'s own arrays after a complete schedule is that of the first `min k n` steps of its
+solo program, independent of the schedule. -/
+theorem C12_exception_paths_release_nothing (kcs : List KCall)
+    (hne : ∀ kc ∈ kcs, kc.call.outputs ≠ []) (hd : DisjointOutputs (kcs.map (·.call)))
+    (t : Nat) (kc : KCall) (ht : kcs[t]? = some kc) (i : Idiom) (o : Outcome)
+    (hp : Outcome.possible i o = true) (sched : List Nat) (m : Mem) :
+    let n := kc.raw.length
+    let tr := skeleton i n false o
+    let kcs' := kcs.set t (kc.truncate o)
+    let kcs0 := kcs.set t ⟨kc.call, []⟩
+    let calls := kcs.map (·.call)
+    (Discipline tr ∧
+      tr = [.validate, .release] ++ steps (kc.truncate o).raw.length ++ exitSeq o ∧
+      tr.count .kernelStep = (kc.truncate o).raw.length ∧
+      (∀ j, tr[j]? = some .kernelStep → 2 ≤ j ∧ j < 2 + (kc.truncate o).raw.length) ∧
+      Ev.kernelStep ∉ exitSeq o) ∧
+    (∀ l : KLoc, l.arr ∉ kc.call.outputs →
+      solo (compile kcs') t m (l.toLoc calls) = m (l.toLoc calls)) ∧
+    (∀ l : KLoc, l.arr ∉ kc.call.outputs →
+      (run (compile kcs') sched (init m)).mem (l.toLoc calls) =
+        (run (compile kcs0) sched (init m)).mem (l.toLoc calls)) ∧
+    (Complete (compile kcs') sched → ∀ l : KLoc, l.arr ∈ kc.call.outputs →
+      (run (compile kcs') sched (init m)).mem (l.toLoc calls) =
+        execAll ((compile kcs t).take (o.ran n)) m (l.toLoc calls)) := by
+  intro n tr kcs' kcs0 calls
+  have hlen : (kc.truncate o).raw.length = o.ran n := truncate_length kc o
+  have hc' : kcs'.map (·.call) = calls := set_map_call kcs t kc _ ht (truncate_call kc o)
+  have hc0 : kcs0.map (·.call) = calls := set_map_call kcs t kc _ ht rfl
+  have hlt : t < kcs.length := (List.getElem?_eq_some_iff.1 ht).1
+  have ht' : kcs'[t]? = some (kc.truncate o) := by simp [kcs', hlt]
+  have ht0 : kcs0[t]? = some ⟨kc.call, []⟩ := by simp [kcs0, hlt]
+  have hkcne : kc.call.outputs ≠ [] := hne kc (List.mem_of_getElem? ht)
+  have hne' : ∀ x ∈ kcs', x.call.outputs ≠ [] := by
+    intro x hx
+    rcases List.mem_or_eq_of_mem_set hx with h | h
+    · exact hne x h
+    · rw [h, truncate_call]; exact hkcne
+  have hne0 : ∀ x ∈ kcs0, x.call.outputs ≠ [] := by
+    intro x hx
+    rcases List.mem_or_eq_of_mem_set hx with h | h
+    · exact hne x h
+    · rw [h]; exact hkcne
+  have hconf' : Confined (compile kcs') := compile_confined kcs' hne' (by rw [hc']; exact hd)
+  have hconf0 : Confined (compile kcs0) := compile_confined kcs0 hne0 (by rw [hc0]; exact hd)
+  refine ⟨⟨C12_gil_discipline_all_paths i n o hp, ?_, ?_, ?_, (exitSeq_no_kernelStep o).1⟩, ?_, ?_, ?_⟩
+  · rw [hlen]; exact skeleton_shape i n o hp
+  · rw [hlen]; exact skeleton_kernelSteps i n o hp
+  · intro j hj; rw [hlen]; exact skeleton_kernelStep_pos i n o hp j hj
+  · intro l hl
+    have := solo_frame kcs' t (kc.truncate o) ht' (by rw [truncate_call]; exact hkcne) m l
+      (by rw [truncate_call]; exact hl)
+    rw [hc'] at this
+    exact this
+  · intro l hl
+    rcases owner_cases calls l.arr with ⟨u, c, hu, ha⟩ | hnone
+    · -- owned by call `u ≠ t`: both runs give `u`'s solo run, and `u`'s program is the same in both families
+      have hut : u ≠ t := by
+        intro h
+        subst h
+        have : c = kc.call := by
+          have h2 : calls[u]? = some kc.call := by simp [calls, ht]
+          rw [hu] at h2
+          exact Option.some.inj h2
+        exact hl (this ▸ ha)
+      have hreg : (l.toLoc calls).region = .priv u := region_of_output calls hd u c hu l.arr ha
+      rw [(C12_interleaving_independent _ hconf' sched m u).1 _ hreg,
+        (C12_interleaving_independent _ hconf0 sched m u).1 _ hreg]
+      rw [soloSteps_congr (compile kcs') (compile kcs0) u
+        ((compile_set_other kcs t u kc _ ht (truncate_call kc o) hut).trans
+          (compile_set_other kcs t u kc ⟨kc.call, []⟩ ht rfl hut).symm)]
+    · have hreg : (l.toLoc calls).region = .sharedRO := region_unowned calls l.arr hnone
+      rw [C12_shared_unchanged _ hconf' sched m _ (Or.inl hreg),
+        C12_shared_unchanged _ hconf0 sched m _ (Or.inl hreg)]
+  · intro hs l hl
+    have hreg : (l.toLoc calls).region = .priv t :=
+      region_of_output calls hd t kc.call (by simp [calls, ht]) l.arr hl
+    rw [C12_interleaving_independent_complete _ hconf' sched hs m t _ hreg, solo_eq_execAll,
+      compile_truncate kcs t kc ht o]
+
+/-! ## T4, round 3 — eight more kernels (`Model/C12Kernels2.lean`) -/
+/-- **C12-T4 (confinement of eight more kernels).** Each access program of `Model/C12Kernels2.lean` —
+`dilate` (scatter: `std::fill`, then read-modify-writes of the RESULT at the clamped neighbour positions),
+`rank_filter` (gather into the call's private `neighbours` buffer, `nth_element` inside that buffer, one
+store per pixel), `template_match` (reads the image and the template, one store per pixel), `cooccurence`
+(read-modify-write of `res[val][val2]`, address generated from the image content), `dist_transform`/`py_dt`
+(reads and writes only the call's own array `f`, `orig` and its heap buffers `z`, `v`, `Df`, `ot`), `borders`
+(reads up to the first differing neighbour, stores `true`), `thin` (work image, buffer, element table and
+`any_change`, all owned) and `zoom_shift` (tables, `idxs`, knots of the input, one store per output
+element) — called on ANY footprint `c` with at least one owned array, for ALL shapes, strides, base
+offsets, element values, border modes, ranks, orders:
+(1) every step writes an array the call owns and reads only argument arrays or owned arrays (`KStep.Within`),
+(2) the write set lies in the outputs, (3) the read set lies in inputs ∪ outputs,
+(4) in every family of calls with disjoint outputs in which this call is number `t`, every step of the
+compiled thread program is `Step.Confined t`.
+As for the first five kernels this is a statement about the hand-written access programs (they follow the
+C++ by reading); see `C12_more_kernels_roles_ok` for "no role falls back to the default array". -/
+theorem C12_more_kernels_confined (k : Kernel2) (c : Call) (hne : c.outputs ≠ []) :
+    (∀ s ∈ (k.call c).prog, s.Within c) ∧
+    (∀ l ∈ writeSet (k.call c).prog, l.arr ∈ c.outputs) ∧
+    (∀ l ∈ readSet (k.call c).prog, l.arr ∈ c.inputs ∨ l.arr ∈ c.outputs) ∧
+    (∀ (kcs : List KCall) (t : Nat), kcs[t]? = some (k.call c) → DisjointOutputs (kcs.map (·.call)) →
+      ∀ s ∈ compile kcs t, s.Confined t) := by
+  have hw : ∀ s ∈ (k.call c).prog, s.Within c := prog_within (k.call c) hne
+  refine ⟨hw, ?_, ?_, ?_⟩
+  · intro l hl
+    simp only [writeSet, List.mem_map] at hl
+    obtain ⟨s, hs, rfl⟩ := hl
+    exact (hw s hs).1
+  · intro l hl
+    simp only [readSet, List.mem_flatMap] at hl
+    obtain ⟨s, hs, hl⟩ := hl
+    exact (hw s hs).2 l hl
+  · intro kcs t ht hd s hs
+    unfold compile at hs
+    rw [ht] at hs
+    simp only [List.mem_map] at hs
+    obtain ⟨ks, hks, rfl⟩ := hs
+    exact compile_step_confined _ hd t c (by simp [ht, Kernel2.call]) ks (hw ks hks)
+
+/-- **C12-T4 (roles within the arity).** For every kernel of the second batch and every step `r` of its
+role-level program, every role `r` mentions exists in a call of the kernel's arity
+(`RStep.rolesOk k.arity`: the destination index is below the number of owned arrays, every source
+`inp i` / `own i` below the number of argument / owned arrays).  Consequently, on a footprint `c` with exactly
+`k.arity.1` argument arrays and `k.arity.2` owned arrays NO role falls back to the default array: the step
+`mkStep c r` writes the array `c.outputs[r.dst]`, and every source role `inp i` / `own i` resolves to
+`c.inputs[i]` / `c.outputs[i]`; and on every footprint with AT LEAST that arity the strict resolution `mkStep?`
+(which fails instead of falling back, see `C12_kernel_roles_wellformed`) returns exactly `mkStep c r`. -/
+theorem C12_more_kernels_roles_ok (k : Kernel2) :
+    (∀ r ∈ k.raw, r.rolesOk k.arity = true) ∧
+    (∀ (c : Call), c.inputs.length = k.arity.1 → c.outputs.length = k.arity.2 → ∀ r ∈ k.raw,
+      (∃ h : r.dst < c.outputs.length, (mkStep c r).dst.arr = c.outputs[r.dst]) ∧
+      (∀ l ∈ r.srcs, match l.role with
+        | .inp i => ∃ h : i < c.inputs.length, c.arrOf l.role = c.inputs[i]
+        | .own i => ∃ h : i < c.outputs.length, c.arrOf l.role = c.outputs[i])) ∧
+    (∀ c : Call, c.HasArity k.arity → ∀ r ∈ k.raw, mkStep? c r = some (mkStep c r)) :=
+  ⟨kernel2_rolesOk k, fun c hi ho r hr => mkStep_resolved c k.arity r (kernel2_rolesOk k r hr) hi ho,
+   fun c hc r hr => mkStep?_of_rolesOk c k.arity hc r (kernel2_rolesOk k r hr)⟩
+
+/-- **C12-T4 (tie: the template_match program computes `C07.tmAt`).** Let call number `t` of ANY family of
+calls be `template_match` (`just_equality = false`, any border mode, any views of the image / result /
+template) on arrays `[aF, aT]` → `[aOut]`, the result array distinct from both arguments. If the initial memory
+presents the logical image `f` through the view `vA` at every position the border rule delivers, and the
+template `tp` at `t.data()[j]` (`vT.base + j`, `j` below the template size: the wrapper passes a C-contiguous
+template), and the result view does not overlap itself, then after the SOLO run of the compiled step program
+— one step per pixel whose operation recomputes `diff2` from the values READ from the image and from the
+template — the result location of pixel number `k` holds exactly `C07.tmAt mode f tshape tp (unravel k)`, the
+value of the model the driver runs (`c07 kind=tm`). With `C12_concurrent_calls_independent` the same value is
+there after every complete interleaving with any other calls that have disjoint outputs. -/
+theorem C12_template_match_program_computes_model (kcs : List KCall) (t : Nat) (md : Mode)
+    (vA vOut vT : C08.View) (aF aT aOut : Nat)
+    (hk : kcs[t]? = some ((Kernel2.templateMatch md false vA vOut vT).call ⟨[aF, aT], [aOut]⟩))
+    (hne1 : aF ≠ aOut) (hne2 : aT ≠ aOut)
+    (f : Img Int) (hshape : f.shape = vA.shape) (tp : Array Int) (m : Mem)
+    (hA : ∀ q q', fixPos md vA.shape q = some q' →
+        m ((KLoc.mk aF (vA.addr (q'.map Int.toNat))).toLoc (kcs.map (·.call))) = f.getD q' 0)
+    (hT : ∀ j : Nat, j < shapeSize vT.shape →
+        m ((KLoc.mk aT (vT.base + (j : Int))).toLoc (kcs.map (·.call))) = tp.getD j 0)
+    (hinj : ∀ k k', k < shapeSize vA.shape → k' < shapeSize vA.shape →
+        iterAddr vOut k = iterAddr vOut k' → k = k')
+    (k : Nat) (hkn : k < shapeSize vA.shape) :
+    solo (compile kcs) t m ((KLoc.mk aOut (iterAddr vOut k)).toLoc (kcs.map (·.call))) =
+      C07.tmAt md f vT.shape tp (unravelI vA.shape k) :=
+  templateMatch_solo_value kcs t md vA vOut vT aF aT aOut hk hne1 hne2 f hshape tp m hA hT hinj k hkn
+
+/-- **C12-T4 (tie: the rank_filter program computes `C07.rankAt`).** Let call number `t` of ANY family of calls
+be `rank_filter` (any border mode, any rank, any views, any structuring element) on arrays `[aA, aBc]` →
+`[aOut, aFd, aNb, aTmp]` (result, `filter_data_`, the private `neighbours` buffer, the locals of
+`nth_element`), the input array distinct from the owned ones and result / `neighbours` / locals pairwise
+distinct. If the initial memory presents the logical image `f` through the view `vA` at every position the
+border rule delivers and the result view does not overlap itself, then after the SOLO run of the compiled step
+program — per pixel: the samples are stored into `neighbours` one by one (`cval = 0` for a flagged sample in
+mode constant), the range is snapshot and written back sorted (one admissible outcome of `nth_element`), and
+`neighbours[currank]` is copied to the result — the result location of every pixel `k` at which the model is
+defined (`C07.rankAt … = some v`: rank inside `[0, N2)`, at least one sample) holds exactly `v`, the value of the
+model the driver runs (`c07 kind=rank`). The private buffer is reused by all pixels; that no later pixel
+disturbs an earlier result is part of the proof. With `C12_concurrent_calls_independent` the same value is there
+after every complete interleaving with any other calls that have disjoint outputs. -/
+theorem C12_rank_filter_program_computes_model (kcs : List KCall) (t : Nat) (md : Mode) (rank : Int)
+    (vA vOut vBc : C08.View) (bc : Array Int) (aA aBc aOut aFd aNb aTmp : Nat)
+    (hk : kcs[t]? = some ((Kernel2.rank md rank vA vOut vBc bc).call ⟨[aA, aBc], [aOut, aFd, aNb, aTmp]⟩))
+    (hA1 : aA ≠ aOut) (hA2 : aA ≠ aFd) (hA3 : aA ≠ aNb) (hA4 : aA ≠ aTmp)
+    (h1 : aOut ≠ aNb) (h2 : aOut ≠ aTmp) (h3 : aNb ≠ aTmp)
+    (f : Img Int) (hshape : f.shape = vA.shape) (m : Mem)
+    (hA : ∀ q q', fixPos md vA.shape q = some q' →
+        m ((KLoc.mk aA (vA.addr (q'.map Int.toNat))).toLoc (kcs.map (·.call))) = f.getD q' 0)
+    (hinj : ∀ k k', k < shapeSize vA.shape → k' < shapeSize vA.shape →
+        iterAddr vOut k = iterAddr vOut k' → k = k')
+    (k : Nat) (hkn : k < shapeSize vA.shape) (v : Int)
+    (hv : C07.rankAt md f (C07.footprint vBc.shape bc) rank (unravelI vA.shape k) = some v) :
+    solo (compile kcs) t m ((KLoc.mk aOut (iterAddr vOut k)).toLoc (kcs.map (·.call))) = v :=
+  rank_solo_value kcs t md rank vA vOut vBc bc aA aBc aOut aFd aNb aTmp hk hA1 hA2 hA3 hA4 h1 h2 h3 f hshape m hA
+    hinj k hkn v hv
+
+/-- **C12-T4 (tie: the dilate program computes `C01.dilateModel`).** Let call number `t` of ANY family of calls
+be `dilate` — a SCATTER kernel: after `std::fill(res, min)` every pixel raises the result at its (clamped)
+neighbour positions by read-modify-writes of the RESULT array — with any dtype, any view of the input, any
+structuring element of the image's rank, on arrays `[aA, aBc]` → `[aOut, aFd]`, the input array distinct from the
+owned ones. The result view has the image's shape and one stride per axis (any strides: then its iterator
+visits `addr (unravel i)`, `C08_iterator_visits_C_order`) and does not overlap itself. If the initial memory
+presents the logical image `A` through the iterator of `vA`, then after the SOLO run of the compiled step
+program the result location of pixel number `k` holds exactly `(C01.dilateModel dt A sup)[k]`, the value of
+the model the driver runs (`c01 kind=dilate`) — the `continue` at `*iter == min` and the conditional store
+`if (nval > arr_val)` included (the step stores the old value back where the C++ does not store). The proof
+carries the running result array of the model through all `N · N2` read-modify-writes (`dilate_step_inv`).
+With `C12_concurrent_calls_independent` the same value is there after every complete interleaving with any
+other calls that have disjoint outputs. -/
+theorem C12_dilate_program_computes_model (kcs : List KCall) (t : Nat) (dt : DT) (vA vOut vBc : C08.View)
+    (bc : Array Int) (aA aBc aOut aFd : Nat)
+    (hk : kcs[t]? = some ((Kernel2.dilate dt vA vOut vBc bc).call ⟨[aA, aBc], [aOut, aFd]⟩))
+    (hA1 : aA ≠ aOut) (hA2 : aA ≠ aFd)
+    (A : Img Int) (hshape : A.shape = vA.shape) (hpos : ∀ d ∈ vA.shape, 0 < d)
+    (hsup : ∀ kh ∈ C01.support vBc.shape bc dt.isBool, kh.1.length = vA.shape.length) (m : Mem)
+    (hA : ∀ i, i < shapeSize vA.shape →
+        m ((KLoc.mk aA (iterAddr vA i)).toLoc (kcs.map (·.call))) = A.getD (unravelI vA.shape i) dt.lo)
+    (hOshape : vOut.shape = vA.shape) (hOlen : vOut.strides.length = vOut.shape.length)
+    (hinj : ∀ k k', k < shapeSize vA.shape → k' < shapeSize vA.shape →
+        iterAddr vOut k = iterAddr vOut k' → k = k')
+    (k : Nat) (hkn : k < shapeSize vA.shape) :
+    solo (compile kcs) t m ((KLoc.mk aOut (iterAddr vOut k)).toLoc (kcs.map (·.call))) =
+      (C01.dilateModel dt A (C01.support vBc.shape bc dt.isBool)).getD k dt.lo :=
+  dilate_solo_value kcs t dt vA vOut vBc bc aA aBc aOut aFd hk hA1 hA2 A hshape hpos hsup m hA
+    (fun i hi => by
+      have := iterAddr_eq_addr vOut hOlen i (by rw [hOshape]; exact hi)
+      rw [hOshape] at this
+      exact this) hinj k hkn
+
+/-- **C12-T4 (tie: the cooccurence program computes `C19.coocModel`).** Let call number `t` of ANY family of
+calls be `cooccurence` on arrays `[aA, aBc]` → `[aRes, aFd, aReg]` (result matrix, `filter_data_`, register), the
+image array distinct from the owned ones and the result array distinct from the other two, with a structuring
+element whose FIRST non-zero entry is at offset `d` (of the image's rank). Let the image view have one stride per
+axis, let the initial memory of array `aA` be the memory `mA` the program was generated from, presenting the
+logical image `im` (all values in `[0, mm)`: no exception is thrown and every increment lands inside the `mm × mm`
+matrix), let the result view address the `mm × mm` cells injectively and let the matrix start at zero (as
+`texture.py` allocates it). Then after the SOLO run of the compiled step program — one read-modify-write
+`++res.at(val, val2)` per element whose neighbour at `d` lies inside the image (mode `ignore`), at an address
+that depends on the two values read — cell `(i, j)` of the result holds exactly `(C19.coocModel mm im d)[i*mm + j]`,
+the value of the model the driver runs (`c19 kind=cooc`). With `C12_concurrent_calls_independent` the same
+matrix is there after every complete interleaving with any other calls that have disjoint outputs. -/
+theorem C12_cooccurence_program_computes_model (kcs : List KCall) (t : Nat) (vA vR vBc : C08.View)
+    (bc : Array Int) (mA : Int → Int) (aA aBc aRes aFd aReg : Nat)
+    (hk : kcs[t]? = some ((Kernel2.cooccurence vA vR vBc bc mA).call ⟨[aA, aBc], [aRes, aFd, aReg]⟩))
+    (hA1 : aA ≠ aRes) (hA2 : aA ≠ aFd) (hA3 : aA ≠ aReg) (hR1 : aRes ≠ aFd) (hR : aRes ≠ aReg)
+    (d : List Int) (rest : List (List Int)) (hfp : C07.footprint vBc.shape bc = d :: rest)
+    (hd : d.length = vA.shape.length)
+    (mm : Nat) (im : Img Int) (hshape : im.shape = vA.shape)
+    (hAlen : vA.strides.length = vA.shape.length)
+    (hAv : ∀ q, inside vA.shape q = true → mA (vA.addr (q.map Int.toNat)) = im.getD q 0)
+    (hval : ∀ q, inside vA.shape q = true → 0 ≤ im.getD q 0 ∧ im.getD q 0 < (mm : Int))
+    (hRinj : ∀ i j i' j', i < mm → j < mm → i' < mm → j' < mm → vR.addr [i, j] = vR.addr [i', j'] →
+      i = i' ∧ j = j')
+    (m : Mem) (hm : ∀ a, m ((KLoc.mk aA a).toLoc (kcs.map (·.call))) = mA a)
+    (hZ : ∀ i j, i < mm → j < mm → m ((KLoc.mk aRes (vR.addr [i, j])).toLoc (kcs.map (·.call))) = 0)
+    (i j : Nat) (hi : i < mm) (hj : j < mm) :
+    solo (compile kcs) t m ((KLoc.mk aRes (vR.addr [i, j])).toLoc (kcs.map (·.call))) =
+      (((C19.coocModel mm im d).getD (i * mm + j) 0 : Nat) : Int) :=
+  cooccurence_solo_value kcs t vA vR vBc bc mA aA aBc aRes aFd aReg hk hA1 hA2 hA3 hR1 hR d rest hfp hd mm im
+    hshape hAlen hAv hval hRinj m hm hZ i j hi hj
+
+/-- **C12-T4 (tie: the borders program computes `C13.bordersModel`).** Let call number `t` of ANY family of calls be
+`borders` (any border mode, any structuring element of the image's rank, any view of the labeled image with one
+stride per axis and positive axis lengths) on arrays `[aA, aBc]` → `[aOut, aFd, aReg]` (result, `filter_data_`,
+register), the image array distinct from the owned ones and the result array from the other two. Let the initial
+memory of array `aA` be the memory `mA` the program was generated from, presenting the flat label list `labels`,
+let the result start at zero (`labeled.borders` zero-fills it) and not overlap itself. Then after the SOLO run
+of the compiled step program — per pixel the neighbours are read up to the first one that differs and `true` is
+stored only then; other pixels store nothing — the result location of pixel `k` holds `1` exactly when
+`(C13.bordersModel mode shape labels footprint)[k]` is `true` and `0` otherwise: the model the driver runs
+(`c13 kind=borders`). With `C12_concurrent_calls_independent` the same values are there after every complete
+interleaving with any other calls that have disjoint outputs. -/
+theorem C12_borders_program_computes_model (kcs : List KCall) (t : Nat) (md : Mode) (vA vOut vBc : C08.View)
+    (bc : Array Int) (mA : Int → Int) (aA aBc aOut aFd aReg : Nat)
+    (hk : kcs[t]? = some ((Kernel2.borders md vA vOut vBc bc mA).call ⟨[aA, aBc], [aOut, aFd, aReg]⟩))
+    (hA1 : aA ≠ aOut) (hA2 : aA ≠ aFd) (hA3 : aA ≠ aReg) (hO1 : aOut ≠ aFd) (hO2 : aOut ≠ aReg)
+    (labels : List Int) (hlen : labels.length = shapeSize vA.shape)
+    (hpos : ∀ d ∈ vA.shape, 0 < d) (hAlen : vA.strides.length = vA.shape.length)
+    (hoffs : ∀ d ∈ C07.footprint vBc.shape bc, d.length = vA.shape.length)
+    (hAv : ∀ q, inside vA.shape q = true → mA (vA.addr (q.map Int.toNat)) = labels.getD (ravelI vA.shape q) 0)
+    (m : Mem) (hm : ∀ a, m ((KLoc.mk aA a).toLoc (kcs.map (·.call))) = mA a)
+    (hZ : ∀ k, k < shapeSize vA.shape → m ((KLoc.mk aOut (iterAddr vOut k)).toLoc (kcs.map (·.call))) = 0)
+    (hinj : ∀ k k', k < shapeSize vA.shape → k' < shapeSize vA.shape →
+        iterAddr vOut k = iterAddr vOut k' → k = k')
+    (k : Nat) (hkn : k < shapeSize vA.shape) :
+    solo (compile kcs) t m ((KLoc.mk aOut (iterAddr vOut k)).toLoc (kcs.map (·.call))) =
+      if (C13.bordersModel md vA.shape labels (C07.footprint vBc.shape bc)).getD k false then 1 else 0 :=
+  borders_solo_value kcs t md vA vOut vBc bc mA aA aBc aOut aFd aReg hk hA1 hA2 hA3 hO1 hO2 labels hlen hpos hAlen
+    hoffs hAv m hm hZ hinj k hkn
+
+/-! ## non-vacuity -/
 
 /-! ## non-vacuity -/
 
@@ -531,4 +932,176 @@ example :
     ((kw.call cw).prog.all (KStep.withinB cw)) = true ∧ 20 ≤ (kw.call cw).prog.length := by
   decide +kernel
 
+/-- round 3, roles: the footprints of `ks` have the arity of `erode`; a step naming a sixth owned array in a call
+with two is caught by the strict resolution (while `mkStep` silently falls back to the first owned array) -/
+example : (⟨[10, 11], [20, 21]⟩ : Call).HasArity k0.arity ∧
+    (k0.raw.all fun r => r.rolesOk k0.arity) = true ∧ k0.raw.length = 6 ∧
+    (mkStep? ⟨[10, 11], [20, 21]⟩ ⟨5, 0, [], fun _ => 0⟩).isNone = true ∧
+    (mkStep ⟨[10, 11], [20, 21]⟩ ⟨5, 0, [], fun _ => 0⟩).dst.arr = 20 ∧
+    RStep.rolesOk (2, 2) ⟨5, 0, [], fun _ => 0⟩ = false := by
+  refine ⟨⟨by decide, by decide⟩, by decide +kernel, by decide +kernel, by decide, by decide, by decide⟩
+
+/-- round 3, exception paths: call 0 of `ks` (idiom (a)) throws after 4 of its 6 steps (3 filter copies, 1 pixel):
+its trace has 4 kernel steps, its own result array holds the partial result `[4, 0, 0]`, call 1 still ends with its
+full erosion `[2, 2, 6]`, the shared input array 10 is unchanged -/
+example :
+    let kcs := ks.map (fun p => p.1.call p.2)
+    let calls := ks.map (·.2)
+    let kcs' := kcs.set 0 ((k0.call ⟨[10, 11], [20, 21]⟩).truncate (.throwAt 4))
+    let m0 := memOf calls content
+    let sched := [0,1,1,0,0,1,0,1,1,0,0,1]
+    skeleton .a 6 false (.throwAt 4) =
+      [.validate, .release, .kernelStep, .kernelStep, .kernelStep, .kernelStep, .throw, .acquire, .interpAccess, .ret] ∧
+    Outcome.possible .a (.throwAt 4) = true ∧
+    outOf calls (run (compile kcs') sched (init m0)).mem 20 = [4, 0, 0] ∧
+    outOf calls (run (compile kcs') sched (init m0)).mem 30 = [2, 2, 6] ∧
+    outOf calls (run (compile kcs') sched (init m0)).mem 10 = [5, 3, 7] := by
+  decide +kernel
+
+/-- round 3, label: 2×2 image `[1,1,0,1]` with the 3×3 cross: the solo run of the step program leaves the labels
+`[1,1,0,1]`… of `C03.labelModel` (one component: pixels 0,1,3 are 4-connected through pixel 1) in array 6 and
+`count + 1` in the `next` register -/
+example :
+    let vB : C08.View := { base := 0, shape := [3, 3], strides := [3, 1] }
+    let bc : Array Int := #[0, 1, 0, 1, 1, 1, 0, 1, 0]
+    let kl : Kernel := .label .constant [2, 2] [1, 1, 0, 1] vB bc
+    let cl : Call := ⟨[5], [6, 7, 8, 9]⟩
+    let kcs := [kl.call cl]
+    let m0 : Mem := memOf [cl] [(⟨6, 0⟩, 1), (⟨6, 1⟩, 1), (⟨6, 2⟩, 0), (⟨6, 3⟩, 1)]
+    (List.range 4).map (fun (j : Nat) => solo (compile kcs) 0 m0 ((KLoc.mk 6 (j : Int)).toLoc [cl])) = [1, 1, 0, 1] ∧
+    (C03.labelModel .constant [2, 2] [1, 1, 0, 1] [3, 3] bc).1 = [1, 1, 0, 1] ∧
+    solo (compile kcs) 0 m0 ((KLoc.mk 8 1).toLoc [cl]) = 2 ∧
+    let kl2 : Kernel := .label .constant [2, 2] [1, 0, 0, 1] vB bc
+    let m1 : Mem := memOf [cl] [(⟨6, 0⟩, 1), (⟨6, 1⟩, 0), (⟨6, 2⟩, 0), (⟨6, 3⟩, 1)]
+    (List.range 4).map (fun (j : Nat) => solo (compile [kl2.call cl]) 0 m1 ((KLoc.mk 6 (j : Int)).toLoc [cl])) =
+      [1, 0, 0, 2] := by
+  decide +kernel
+
+/-- round 3, cwatershed: 2×2 surface `[1,2,3,4]`, markers `[1,0,0,2]`, 3×3 cross: the solo run of the step program
+leaves `res = [1,1,1,2]` of `C04.cwatershedModel` in array 10 and `status` all black in array 11 -/
+example :
+    let v22 : C08.View := { base := 0, shape := [2, 2], strides := [2, 1] }
+    let vB : C08.View := { base := 0, shape := [3, 3], strides := [3, 1] }
+    let bc : Array Int := #[0, 1, 0, 1, 1, 1, 0, 1, 0]
+    let kw : Kernel := .cwatershed v22 v22 vB ⟨[2, 2], #[1, 2, 3, 4]⟩ ⟨[2, 2], #[1, 0, 0, 2]⟩ bc
+    let cw : Call := ⟨[1, 2, 3], [10, 11, 12, 13, 14, 15]⟩
+    let m0 : Mem := memOf [cw] [(⟨1, 0⟩, 1), (⟨1, 1⟩, 2), (⟨1, 2⟩, 3), (⟨1, 3⟩, 4), (⟨2, 0⟩, 1), (⟨2, 3⟩, 2)]
+    (List.range 4).map (fun (j : Nat) => solo (compile [kw.call cw]) 0 m0 ((KLoc.mk 10 (j : Int)).toLoc [cw])) =
+      (C04.cwatershedModel ⟨[2, 2], #[1, 2, 3, 4]⟩ ⟨[2, 2], #[1, 0, 0, 2]⟩ [3, 3] bc).res.toList ∧
+    (C04.cwatershedModel ⟨[2, 2], #[1, 2, 3, 4]⟩ ⟨[2, 2], #[1, 0, 0, 2]⟩ [3, 3] bc).res.toList = [1, 1, 1, 2] ∧
+    (List.range 4).map (fun (j : Nat) => solo (compile [kw.call cw]) 0 m0 ((KLoc.mk 11 (j : Int)).toLoc [cw])) =
+      [2, 2, 2, 2] ∧
+    CDist 2 10 11 12 13 14 15 := by
+  refine ⟨by decide +kernel, by decide +kernel, by decide +kernel, ?_⟩
+  constructor <;> decide
+
 end Mahotas.C12.Examples
+
+namespace Mahotas.C12.Examples2
+open Mahotas.C12
+
+def memOf (calls : List Call) (content : List (KLoc × Val)) : Mem :=
+  ⟨fun l => ((content.find? (fun p => p.1.toLoc calls == l)).map (·.2)).getD 0⟩
+
+def v3 : C08.View := { base := 0, shape := [3], strides := [1] }
+def v4 : C08.View := { base := 0, shape := [4], strides := [1] }
+def outOf (calls : List Call) (m : Mem) (a n : Nat) : List Int :=
+  (List.range n).map fun (i : Nat) => m ((KLoc.mk a (i : Int)).toLoc calls)
+
+/-- a `dilate` call (uint8, 4 pixels, element `[1,1,0]`) and a `rank_filter` call (mode reflect, rank 1 of 3)
+reading the SAME input array 10; structuring elements 11 / 12; owned arrays 20, 21 / 30 … 33 -/
+def kd : Kernel2 := .dilate (dtU 8) v4 v4 v3 #[1, 1, 0]
+def kr : Kernel2 := .rank .reflect 1 v4 v4 v3 #[1, 1, 1]
+def kcs : List KCall := [kd.call ⟨[10, 11], [20, 21]⟩, kr.call ⟨[10, 12], [30, 31, 32, 33]⟩]
+def content : List (KLoc × Val) :=
+  [(⟨10,0⟩,5),(⟨10,1⟩,3),(⟨10,2⟩,7),(⟨10,3⟩,0),(⟨11,0⟩,1),(⟨11,1⟩,1),(⟨11,2⟩,0),(⟨12,0⟩,1),(⟨12,1⟩,1),(⟨12,2⟩,1)]
+
+/-- the hypothesis "disjoint outputs" of `C12_concurrent_calls_independent` holds for `kcs` -/
+theorem kcs_disjoint : DisjointOutputs (kcs.map (·.call)) := by
+  intro i j ci cj hi hj a ha hb
+  have hi' : i = 0 ∨ i = 1 := by
+    have := (List.getElem?_eq_some_iff.1 hi).1; simp [kcs] at this; omega
+  have hj' : j = 0 ∨ j = 1 := by
+    have := (List.getElem?_eq_some_iff.1 hj).1; simp [kcs] at this; omega
+  rcases hi' with rfl | rfl <;> rcases hj' with rfl | rfl <;> simp [kcs, Kernel2.call] at hi hj <;>
+    subst hi <;> subst hj <;> simp at ha hb <;> omega
+
+/-- … and the conclusion is not trivial: in the interleaving below (16 steps of the dilation, 43 of the rank
+filter) the dilate call ends with `C01.dilateModel` of `[5,3,7,0]` = `[6,8,8,0]` and the rank filter with
+`C07.rankAt` = `[5,5,3,0]`, each equal to its solo run; both programs are non-empty, every step is inside its
+call's footprint and every role inside the arity -/
+example :
+    let calls := kcs.map (·.call)
+    let m0 := memOf calls content
+    let sched := (List.range 43).flatMap fun _ => [1, 0]
+    outOf calls (run (compile kcs) sched (init m0)).mem 20 4 = [6, 8, 8, 0] ∧
+    outOf calls (run (compile kcs) sched (init m0)).mem 30 4 = [5, 5, 3, 0] ∧
+    outOf calls (solo (compile kcs) 0 m0) 20 4 = [6, 8, 8, 0] ∧
+    outOf calls (solo (compile kcs) 1 m0) 30 4 = [5, 5, 3, 0] ∧
+    (C01.dilateModel (dtU 8) ⟨[4], #[5, 3, 7, 0]⟩ (C01.support [3] #[1, 1, 0] false)).toList = [6, 8, 8, 0] ∧
+    (kcs.map fun kc => kc.prog.length) = [16, 43] ∧
+    (kcs.all fun kc => kc.prog.all (KStep.withinB kc.call)) = true ∧
+    (kd.raw.all (RStep.rolesOk kd.arity) && kr.raw.all (RStep.rolesOk kr.arity)) = true := by
+  decide +kernel
+
+/-- `template_match` (mode constant), `cooccurence` (2×2 image, direction `(0,1)`, 3×3 result matrix) and
+`borders`: the solo runs leave `C07.tmAt`, `C19.coocModel` and the border marks; roles inside the arities -/
+example :
+    let kt : Kernel2 := .templateMatch .constant false v4 v4 v3
+    let ct : Call := ⟨[10, 11], [20]⟩
+    outOf [ct] (solo (compile [kt.call ct]) 0 (memOf [ct] content)) 20 4 = [25, 69, 40, 37] ∧
+    (allPos [4]).map (C07.tmAt .constant ⟨[4], #[5, 3, 7, 0]⟩ [3] #[1, 1, 0]) = [25, 69, 40, 37] ∧
+    let v22 : C08.View := { base := 0, shape := [2, 2], strides := [2, 1] }
+    let v33 : C08.View := { base := 0, shape := [3, 3], strides := [3, 1] }
+    let mA : Int → Int := fun a => if a = 0 ∨ a = 2 then 1 else if a = 1 ∨ a = 3 then 2 else 0
+    let kc : Kernel2 := .cooccurence v22 v33 v33 #[0, 0, 0, 0, 0, 1, 0, 0, 0] mA
+    let cc : Call := ⟨[1, 2], [3, 4, 5]⟩
+    outOf [cc] (solo (compile [kc.call cc]) 0
+      (memOf [cc] ((List.range 4).map fun (a : Nat) => (⟨1, (a : Int)⟩, mA a)))) 3 9 = [0, 0, 0, 0, 0, 2, 0, 0, 0] ∧
+    (C19.coocModel 3 ⟨[2, 2], #[1, 2, 1, 2]⟩ [0, 1]).toList = [0, 0, 0, 0, 0, 2, 0, 0, 0] ∧
+    let mB : Int → Int := fun a => if a < 2 then 1 else 2
+    let kb : Kernel2 := .borders .constant v4 v4 v3 #[1, 1, 1] mB
+    outOf [cc] (solo (compile [kb.call cc]) 0
+      (memOf [cc] ((List.range 4).map fun (a : Nat) => (⟨1, (a : Int)⟩, mB a)))) 3 4 = [0, 1, 1, 0] ∧
+    (kt.raw.all (RStep.rolesOk kt.arity) && kc.raw.all (RStep.rolesOk kc.arity) &&
+      kb.raw.all (RStep.rolesOk kb.arity)) = true ∧
+    ((kc.call cc).prog.all (KStep.withinB cc) && (kb.call cc).prog.all (KStep.withinB cc)) = true := by
+  decide +kernel
+
+/-- `py_dt` on a 2×3 array with origins (104 steps: the run of `C05.pyDt` is reproduced, values and origins),
+`thin` on a 4×4 square in its zero frame (1540 steps: the run of `C15.thinCore` is reproduced), `zoom_shift`
+(order 1, shift 1/2, 3 output elements: 12 steps); all inside their footprints and arities -/
+example :
+    let f0 : Array Int := #[0, 100, 100, 100, 0, 100]
+    let kdist : Kernel2 := .distance true (f0, #[0, 1, 2, 3, 4, 5]) 2 3 0 3 1 0 3 1
+    let cdist : Call := ⟨[], [1, 2, 3, 4, 5, 6]⟩
+    let m := solo (compile [kdist.call cdist]) 0
+      (memOf [cdist] ((List.range 6).flatMap fun (a : Nat) => [(⟨1, (a : Int)⟩, f0.getD a 0), (⟨5, (a : Int)⟩, (a : Int))]))
+    (outOf [cdist] m 1 6, outOf [cdist] m 5 6) = ([0, 1, 2, 1, 0, 1], [0, 0, 4, 0, 4, 4]) ∧
+    C05.pyDt (f0, #[0, 1, 2, 3, 4, 5]) 2 3 0 3 1 0 3 1 = (#[0, 1, 2, 1, 0, 1], #[0, 0, 4, 0, 4, 4]) ∧
+    (kdist.call cdist).prog.length = 104 ∧
+    ((kdist.call cdist).prog.all (KStep.withinB cdist) && kdist.raw.all (RStep.rolesOk kdist.arity)) = true ∧
+    let kz : Kernel2 := .zoomShift Rat.floor 1 .nearest v4 v3 [some (1 / 2 : Rat)] [none]
+    let cz : Call := ⟨[1, 2, 3], [4, 5, 6]⟩
+    (kz.call cz).prog.length = 12 ∧
+    ((kz.call cz).prog.all (KStep.withinB cz) && kz.raw.all (RStep.rolesOk kz.arity)) = true := by
+  decide +kernel
+
+/-- a 2×2 block in its zero frame -/
+def bin : C15.Bin := C15.Bin.ofInts 4 4 [0,0,0,0, 0,1,1,0, 0,1,1,0, 0,0,0,0]
+
+/-- `thin` with `max_iter = 1` on the 2×2 block (482 steps: element table, one outer iteration of eight passes):
+the solo run reproduces `C15.thinCore` (one pixel is cleared); inside footprint and arity -/
+example :
+    let v44 : C08.View := { base := 0, shape := [4, 4], strides := [4, 1] }
+    let kth : Kernel2 := .thin v44 v44 bin 1
+    let cth : Call := ⟨[], [1, 2, 3, 4]⟩
+    (kth.call cth).prog.length = 482 ∧
+    ((kth.call cth).prog.all (KStep.withinB cth) && kth.raw.all (RStep.rolesOk kth.arity)) = true ∧
+    outOf [cth] (solo (compile [kth.call cth]) 0
+      (memOf [cth] ((List.range 16).map fun (a : Nat) => (⟨1, (a : Int)⟩, bin.toInts.getD a 0)))) 1 16 =
+      (C15.thinCore bin 1).toInts ∧
+    (C15.thinCore bin 1).toInts ≠ bin.toInts := by
+  decide +kernel
+
+end Mahotas.C12.Examples2
